@@ -236,6 +236,27 @@ def r2_edge_provenance(ctx):
                                 endpoint_guard = True
                             if a2 and a2[0] == 'cmp' and a2[1] == 'eq' and any(y[0] == 'call' and y[1].endswith('Gate::kind') for y in walk(a2[3])) and 'Endpoint' in show_c(a2[2]):
                                 endpoint_guard = True
+            if not endpoint_guard:
+                # the test sits in a helper that answers with an Option (`let Some(end) = gate.chain_end() else { continue }`): every way
+                # through one turn of the gate loop that reaches the construction has passed `kind() == Endpoint`
+                h_ = innermost_loop(f, b)
+                if h_ is not None:
+                    n_p, all_ok = 0, True
+                    for path, outcome, decs in f.enum_paths(start=h_, stop_at={b}):
+                        if outcome != 'stop' or path[-1] != b or not consistent(f, path, decs):
+                            continue
+                        n_p += 1
+                        pa = [a for _, a in path_atoms(f, path, decs)]
+                        def is_ep(a):
+                            if a[0] == 'cmp' and a[1] == 'eq':
+                                return any(x[0] == 'call' and str(x[1]).endswith('Gate::kind') for side in (a[2], a[3]) for x in walk(side)) and 'Endpoint' in show_c(a[2]) + show_c(a[3])
+                            if a[0] == 'bool' and a[2] is True and a[1][0] == 'call' and str(a[1][1]).split('::')[-1] == 'eq':
+                                return any(x[0] == 'call' and str(x[1]).endswith('Gate::kind') for x in walk(a[1])) and 'Endpoint' in show_c(a[1])
+                            if a[0] == 'bool' and a[2] is False and a[1][0] == 'call' and str(a[1][1]).split('::')[-1] == 'ne':
+                                return any(x[0] == 'call' and str(x[1]).endswith('Gate::kind') for x in walk(a[1])) and 'Endpoint' in show_c(a[1])
+                            return False
+                        all_ok = all_ok and any(is_ep(a) for a in pa)
+                    endpoint_guard = n_p >= 1 and all_ok
             ctx.check(endpoint_guard, 'edge-only-for-endpoints:%s' % key.split('::')[-1], 'an edge is created only for gates of kind Endpoint', f.where(b), [show_atom(a) for a in atoms][:3])
             start = peel(fields['start'])
             s_ok = any(x[0] == 'call' and x[1].endswith(('::next', 'Iterator::find')) for x in walk(start)) and not any(x[0] == 'field' and x[2] == 'endpoint' for x in walk(start))
